@@ -354,3 +354,16 @@ def mut_borrow_read_only(body, bb0, idx0):
                 if t["fn"].get("name") not in _READ_ONLY_METHODS or "indirect" in t["fn"]:
                     return False
     return True
+
+
+def cell_origin(evs, cell):
+    """the caller place a memory cell stands for (`helper(&mut local)` inlined with the "mutlocal" feature): the
+    i-th argument of the inlined call with the cell's uid"""
+    if not (isinstance(cell, tuple) and cell and cell[0] == "cell"):
+        return None
+    for e in evs:
+        if e.kind == "call" and e.extra.get("inlined") and e.extra.get("uid") == cell[1] and cell[2] < len(e.args):
+            a = e.args[cell[2]]
+            if isinstance(a, tuple) and a and a[0] == "ref":
+                return a[1]
+    return None
